@@ -181,6 +181,9 @@ impl Opcode for CallDataCopy {
             let polling_interval = vm.watchdog().poll_every();
 
             for (count, internal_offset) in (0..size_limit).step_by(32).enumerate() {
+                #[cfg(sle_verif)]
+                crate::verif::emit(crate::verif::Event::LoopIter { site: "op::calldatacopy" });
+
                 // If we have been told to stop, stop and return an error
                 if count % polling_interval == 0 && vm.watchdog().should_stop() {
                     Err(Error::StoppedByWatchdog).locate(instruction_pointer)?;
@@ -337,6 +340,9 @@ impl Opcode for CodeCopy {
             let polling_interval = vm.watchdog().poll_every();
 
             for (count, internal_offset) in (0..size_limit).step_by(32).enumerate() {
+                #[cfg(sle_verif)]
+                crate::verif::emit(crate::verif::Event::LoopIter { site: "op::codecopy" });
+
                 // If we have been told to stop, stop and return an error
                 if count % polling_interval == 0 && vm.watchdog().should_stop() {
                     Err(Error::StoppedByWatchdog).locate(instruction_pointer)?;
@@ -506,6 +512,9 @@ impl Opcode for ExtCodeCopy {
             let polling_interval = vm.watchdog().poll_every();
 
             for (count, internal_offset) in (0..size_limit).step_by(32).enumerate() {
+                #[cfg(sle_verif)]
+                crate::verif::emit(crate::verif::Event::LoopIter { site: "op::extcodecopy" });
+
                 // If we have been told to stop, stop and return an error
                 if count % polling_interval == 0 && vm.watchdog().should_stop() {
                     Err(Error::StoppedByWatchdog).locate(instruction_pointer)?;
@@ -673,6 +682,9 @@ impl Opcode for ReturnDataCopy {
             let polling_interval = vm.watchdog().poll_every();
 
             for (count, internal_offset) in (0..size_limit).step_by(32).enumerate() {
+                #[cfg(sle_verif)]
+                crate::verif::emit(crate::verif::Event::LoopIter { site: "op::returndatacopy" });
+
                 // If we have been told to stop, stop and return an error
                 if count % polling_interval == 0 && vm.watchdog().should_stop() {
                     Err(Error::StoppedByWatchdog).locate(instruction_pointer)?;
